@@ -12,7 +12,8 @@ EXTENDS Integers, Sequences, FiniteSets, TLC, Json
 CONSTANTS Cap,          \* client cache capacity
           MaxOps,       \* history length
           Suites,       \* e.g. {"CBC", "GCM"}
-          Names         \* server names the client connects to (cache keys)
+          Names,        \* server names the client connects to (cache keys)
+          Versions      \* versions the client may switch between ({} : single-version protocol)
 
 VARIABLES keys,      \* server: sequence of ticket key ids, first seals
           nextKey,   \* fresh key ids
@@ -21,13 +22,14 @@ VARIABLES keys,      \* server: sequence of ticket key ids, first seals
           cauth,     \* server: "none" | "request" | "require"
           disabled,  \* server: SessionTicketsDisabled
           ccert,     \* client presents a certificate when asked
+          cvers,     \* highest version the client offers (the server supports all): the negotiated version
           cache,     \* client: sequence of [name, ticket] most recent LAST; ticket = [key, suite, hascert, sid, bad]
           nextSid,   \* fresh session identities (= distinct master secrets)
           hist
-vars == <<keys, nextKey, ssuites, csuites, cauth, disabled, ccert, cache, nextSid, hist>>
+vars == <<keys, nextKey, ssuites, csuites, cauth, disabled, ccert, cvers, cache, nextSid, hist>>
 
 Init == /\ keys = <<1>> /\ nextKey = 2 /\ ssuites = Suites /\ csuites = Suites /\ cauth = "none"
-        /\ disabled = FALSE /\ ccert = FALSE /\ cache = <<>> /\ nextSid = 1 /\ hist = <<>>
+        /\ disabled = FALSE /\ ccert = FALSE /\ cvers \in (Versions \cup {12}) /\ cache = <<>> /\ nextSid = 1 /\ hist = <<>>
 
 InSeq(s, x) == \E i \in 1..Len(s) : s[i] = x
 Lookup(n) == LET idx == {i \in 1..Len(cache) : cache[i].name = n} IN
@@ -38,11 +40,13 @@ Put(n, t) == LET c2 == Append(Without(n), [name |-> n, ticket |-> t]) IN
 
 \* the suite a full handshake negotiates (client preference order = a fixed order over Suites)
 Pref == <<"CBC", "GCM">>
-Common == SelectSeq(Pref, LAMBDA x : x \in csuites /\ x \in ssuites)
+\* (the AEAD suite needs the newest version)
+Common == SelectSeq(Pref, LAMBDA x : x \in csuites /\ x \in ssuites /\ (x # "GCM" \/ cvers = 12))
 
 \* the resumption gate of the statement
 Gate(t) == /\ ~disabled /\ ~t.bad
            /\ InSeq(keys, t.key)
+           /\ t.vers = cvers                          \* never across protocol versions
            /\ t.suite \in csuites /\ t.suite \in ssuites
            /\ ~(cauth = "require" /\ ~t.hascert)
            /\ ~(cauth = "none" /\ t.hascert)
@@ -58,37 +62,40 @@ Connect(n) ==
           THEN \* abbreviated handshake: same session; a ticket sealed under an old key is refreshed
                /\ cache' = Put(n, [l.t EXCEPT !.key = keys[1]])
                /\ UNCHANGED nextSid
-               /\ hist' = Append(hist, [op |-> "connect", name |-> n, offered |-> TRUE, expect |-> "resume", sid |-> l.t.sid,
+               /\ hist' = Append(hist, [op |-> "connect", name |-> n, vers |-> cvers, offered |-> TRUE, expect |-> "resume", sid |-> l.t.sid,
                                         suite |-> l.t.suite, hascert |-> l.t.hascert])
           ELSE \* full handshake; a new ticket iff tickets are enabled
                LET hc == ccert /\ cauth # "none"
-                   t == [key |-> keys[1], suite |-> Common[1], hascert |-> hc, sid |-> nextSid, bad |-> FALSE] IN
+                   t == [key |-> keys[1], suite |-> Common[1], hascert |-> hc, sid |-> nextSid, bad |-> FALSE, vers |-> cvers] IN
                /\ cache' = IF disabled THEN cache ELSE Put(n, t)
                /\ nextSid' = nextSid + 1
-               /\ hist' = Append(hist, [op |-> "connect", name |-> n, offered |-> offered, expect |-> "full", sid |-> nextSid,
+               /\ hist' = Append(hist, [op |-> "connect", name |-> n, vers |-> cvers, offered |-> offered, expect |-> "full", sid |-> nextSid,
                                         suite |-> Common[1], hascert |-> hc])
-  /\ UNCHANGED <<keys, nextKey, ssuites, csuites, cauth, disabled, ccert>>
+  /\ UNCHANGED <<keys, nextKey, ssuites, csuites, cauth, disabled, ccert, cvers>>
 
 \* SetSessionTicketKeys: a new first key, keeping the previous first key (keep) or none of the old ones
 Rotate(keep) == /\ keys' = IF keep THEN <<nextKey, keys[1]>> ELSE <<nextKey>>
                 /\ nextKey' = nextKey + 1
                 /\ hist' = Append(hist, [op |-> "rotate", keep |-> keep])
-                /\ UNCHANGED <<ssuites, csuites, cauth, disabled, ccert, cache, nextSid>>
+                /\ UNCHANGED <<ssuites, csuites, cauth, disabled, ccert, cvers, cache, nextSid>>
 SetSSuites(x) == /\ x # ssuites /\ ssuites' = x /\ hist' = Append(hist, [op |-> "ssuites", s |-> x])
-                 /\ UNCHANGED <<keys, nextKey, csuites, cauth, disabled, ccert, cache, nextSid>>
+                 /\ UNCHANGED <<keys, nextKey, csuites, cauth, disabled, ccert, cvers, cache, nextSid>>
 SetCSuites(x) == /\ x # csuites /\ csuites' = x /\ hist' = Append(hist, [op |-> "csuites", s |-> x])
-                 /\ UNCHANGED <<keys, nextKey, ssuites, cauth, disabled, ccert, cache, nextSid>>
+                 /\ UNCHANGED <<keys, nextKey, ssuites, cauth, disabled, ccert, cvers, cache, nextSid>>
 SetAuth(a, cc) == /\ (a # cauth \/ cc # ccert) /\ cauth' = a /\ ccert' = cc
                   /\ hist' = Append(hist, [op |-> "auth", a |-> a, ccert |-> cc])
-                  /\ UNCHANGED <<keys, nextKey, ssuites, csuites, disabled, cache, nextSid>>
+                  /\ UNCHANGED <<keys, nextKey, ssuites, csuites, disabled, cvers, cache, nextSid>>
 SetDisabled(b) == /\ b # disabled /\ disabled' = b /\ hist' = Append(hist, [op |-> "disabled", b |-> b])
-                  /\ UNCHANGED <<keys, nextKey, ssuites, csuites, cauth, ccert, cache, nextSid>>
+                  /\ UNCHANGED <<keys, nextKey, ssuites, csuites, cauth, ccert, cvers, cache, nextSid>>
 \* the cached ticket for n is changed in one byte of region r, or truncated
 Tamper(n, r) == /\ Lookup(n).found /\ ~Lookup(n).t.bad
                 /\ cache' = [i \in 1..Len(cache) |-> IF cache[i].name = n THEN [cache[i] EXCEPT !.ticket.bad = TRUE] ELSE cache[i]]
                 /\ hist' = Append(hist, [op |-> "tamper", name |-> n, region |-> r])
-                /\ UNCHANGED <<keys, nextKey, ssuites, csuites, cauth, disabled, ccert, nextSid>>
+                /\ UNCHANGED <<keys, nextKey, ssuites, csuites, cauth, disabled, ccert, cvers, nextSid>>
 
+\* the client raises / lowers the highest version it offers (TLS 1.1 = 11, TLS 1.2 = 12); GMSSL has a single version
+SetVers(v) == /\ Versions # {} /\ v # cvers /\ cvers' = v /\ hist' = Append(hist, [op |-> "vers", v |-> v])
+              /\ UNCHANGED <<keys, nextKey, ssuites, csuites, cauth, disabled, ccert, cache, nextSid>>
 NonEmpty == {x \in SUBSET Suites : x # {}}
 Next == /\ Len(hist) < MaxOps
         /\ \/ \E n \in Names : Connect(n)
@@ -96,6 +103,7 @@ Next == /\ Len(hist) < MaxOps
            \/ \E x \in NonEmpty : SetSSuites(x) \/ SetCSuites(x)
            \/ \E a \in {"none", "request", "require"}, cc \in BOOLEAN : SetAuth(a, cc)
            \/ \E b \in BOOLEAN : SetDisabled(b)
+           \/ \E v \in Versions : SetVers(v)
            \/ \E n \in Names, r \in {"keyname", "iv", "state", "mac", "truncate", "extend"} : Tamper(n, r)
 Spec == Init /\ [][Next]_vars
 
@@ -108,6 +116,6 @@ ResumeContinues == \A i \in 1..Len(hist) : (Conn(i) /\ hist[i].expect = "resume"
 \* every cached ticket was sealed under a key that was first at the time, and names an existing session
 CacheSane == \A i \in 1..Len(cache) : cache[i].ticket.sid < nextSid /\ cache[i].ticket.key < nextKey
 CacheBound == Len(cache) <= Cap
-View == <<keys, ssuites, csuites, cauth, disabled, ccert, cache, Len(hist)>>
+View == <<keys, ssuites, csuites, cauth, disabled, ccert, cvers, cache, Len(hist)>>
 Emit == Len(hist) = MaxOps => PrintT(<<"BEH", ToJson(hist)>>)
 =============================================================================
